@@ -1,7 +1,7 @@
 /-
   Straight transliteration of `SVD::svd()` (lib/matvec/svd.h; Golub–Reinsch: Householder
   bidiagonalisation, accumulation of the right- and left-hand transformations, implicit-shift
-  QR sweeps with the `#_LH_#` shift formulas) — FOR EXECUTION ONLY.
+  QR sweeps with the `#_LH_#` shift formulas).
 
   Same statements in the same order on the same variables (the C++ declares them `volatile`,
   i.e. every intermediate is a stored `double`), 1-based indices as in the source (`g1/s1/mg/ms`
@@ -10,11 +10,15 @@
   throws `NoConvergence` when a 31st QR step would be needed (`its++ == 30`); the model's `for`
   over `[0:31]` with the same test is the explicit fuel.
 
-  NOT VERIFIED: that the iteration converges and that the factors it returns satisfy
-  `A = U diag(W) Vᵀ`, `VᵀV = I`, `U₁ᵀU₁ = I` to working accuracy.  No theorem is stated about
-  this function.  Its output is compared with the C++ through x, r, Q (drv_ls) and the factors of
-  the REAL code are checked numerically on every run (tools/props/svd_cert.py) — the one place
-  where a per-run numeric check stands in for a missing universal theorem.
+  PROVED about this function (Lemmas/Ls/SvdDecomp*.lean, `Svd.decompose_cert`; Props/C01/SvdDecomp.lean),
+  over every linearly ordered field with a square root, for every `m`, `n`, `A`: whenever it returns
+  (`decompose m n A = .ok d`), `A = U diag(W) Vᵀ`, `VᵀV = 1`, the columns of `U` that belong to
+  non-zero singular values are orthonormal, `W ≥ 0`; with the invariant after every Householder
+  step, accumulation step, Givens rotation pair and pass (`Svd.decompose_invariant`).
+  NOT proved: that it returns (convergence of the QR iteration within 30 sweeps per singular
+  value), and anything about IEEE rounding — for `double` the output is compared with the C++
+  through x, r, Q (drv_ls) and the factors of the REAL code are checked numerically on every run
+  (tools/props/svd_cert.py), which stands for convergence / negligibility only.
 -/
 import Gama.Model.Ls.Svd.Post
 namespace Gama.Ls.Svd
